@@ -29,10 +29,19 @@ func (s ExploreUnion) Interests() []datamodel.PathSegment {
 		}
 	}
 	// Accumulate the whitelist of interesting path segments.
-	// TODO: Dedup?
+	// A segment that several members are interested in is listed once:
+	// the walk explores each listed segment once, with all the interested members,
+	// so listing it again would visit the same child a second time.
 	v := []datamodel.PathSegment{}
+	seen := make(map[string]struct{})
 	for _, m := range s.Members {
-		v = append(v, m.Interests()...)
+		for _, ps := range m.Interests() {
+			if _, dup := seen[ps.String()]; dup {
+				continue
+			}
+			seen[ps.String()] = struct{}{}
+			v = append(v, ps)
+		}
 	}
 	return v
 }
